@@ -1294,8 +1294,8 @@ MUTANTS = [
      "if index == 0 and frame not in ('galactic', 'ecliptic'):"),
     ('arcmin-read-as-arcsec', 'regions/io/ds9/read.py', "\"'\": u.arcmin,", "\"'\": u.arcsec,"),
     ('frame-kept-after-unsupported-frame', 'regions/io/ds9/read.py',
-     "            if frame_or_shape in unsupported_frames:\n                frame = None\n", ''),
-    ('composite-meta-never-cleared', 'regions/io/ds9/read.py', "if '||' not in line and composite_meta:", "if False:"),
+     "            if frame_or_shape in unsupported_frames:\n                frame = None\n", "            if frame_or_shape in unsupported_frames:\n                pass\n"),
+    ('composite-meta-never-cleared', 'regions/io/ds9/read.py', "if '||' not in line_notext and composite_meta:", "if False:"),
     ('i-suffix-kept-on-pixel-positions', 'regions/io/ds9/read.py',
      "    if param_str[-1] == 'i':\n        param_str = param_str[:-1]\n\n    # DS9 uses 1-indexed pixels",
      "    if param_str[-1] == 'i':\n        return float(param_str[:-1])\n\n    # DS9 uses 1-indexed pixels"),
@@ -1308,8 +1308,8 @@ MUTANTS = [
      "    all_meta.update(region_meta)\n    all_meta.update(include_meta)"),
     ('global-beats-region-property', 'regions/io/ds9/read.py', "    all_meta.update(region_meta)\n\n    # valid DS9 point symbols",
      "    all_meta.update(region_meta)\n    all_meta.update(global_meta)\n\n    # valid DS9 point symbols"),
-    ('composite-below-global', 'regions/io/ds9/read.py', "    all_meta = global_meta.copy()\n    all_meta.update(composite_meta)",
-     "    all_meta = dict(composite_meta)\n    all_meta.update(global_meta)"),
+    ('composite-below-global', 'regions/io/ds9/read.py', "    all_meta.update(global_meta)\n    all_meta.update(composite_meta)",
+     "    all_meta.update(composite_meta)\n    all_meta.update(global_meta)"),
     ('multi-annulus-off-by-one', 'regions/io/ds9/read.py', "                idx = i + 2\n", "                idx = min(i + 3, len(shape_params) - 2)\n"),
     ('j2000-mapped-to-icrs', 'regions/io/ds9/core.py', "'j2000': 'fk5',", "'j2000': 'icrs',"),
     ('semicolon-split-inside-text', 'regions/io/ds9/read.py', "            if i0 <= i <= i1:\n                break", "            if False:\n                break"),
